@@ -178,8 +178,8 @@ def witnesses(tier, seed):
         # the pivoted form end to end (symbolic pivot search): both permutation encodings
         for enc in ('V', 'M'):
             for (n, kind) in [(2, 'identity'), (2, 'rot345'), (3, 'rot345'), (3, 'identity')] + ([] if quick else [(3, 'rot51213'), (4, 'hadamard')]):
-                if t == 'f32' and (quick and n > 2):
-                    continue
+                if t == 'f32' and ((quick and n > 2) or n > 3):
+                    continue     # n = 4 in single precision exceeds the budget of the case split (decided in double precision)
                 W.append(mk_pivoted(t, n, kind, enc))
     return group_sort(W)
 
